@@ -418,6 +418,7 @@ VALUES = [
     ("sym", "-2"),
     ("sym", "1.5"),
     ("sym", "'s t'"),
+    ("sym", "'s  t'"),  # differs from the previous one only by whitespace *inside* the literal
     ("sym", "'>'"),
     ("sym", "N"),
     ("sym", "mod.K"),
